@@ -15,6 +15,7 @@ mod c09;
 mod c10;
 mod c16;
 mod c19;
+mod c20;
 mod c21;
 mod c22;
 mod c24;
@@ -61,6 +62,7 @@ fn main() {
                 "C10" => c10::run(seed, thorough, &mut out),
                 "C16" => c16::run(seed, thorough, 16, &mut out),
                 "C19" => c19::run(seed, thorough, &mut out),
+                "C20" => c20::run(seed, thorough, &mut out),
                 "C21" => c21::run(seed, thorough, &mut out),
                 "C22" => c22::run(seed, thorough, &mut out),
                 "C24" => c24::run(seed, thorough, &mut out),
@@ -97,6 +99,7 @@ fn main() {
                     "C10" => c10::replay(line, &mut out),
                     "C16" => c16::replay(line, 16, &mut out),
                     "C19" => c19::replay(line, &mut out),
+                    "C20" => c20::replay(line, &mut out),
                     "C21" => c21::replay(line, &mut out),
                     "C22" => c22::replay(line, &mut out),
                     "C24" => c24::replay(line, &mut out),
